@@ -12,6 +12,7 @@ Definition c03_model_ok (c : c03case) : bool :=
   | Bin BMod a b out => rz_eqb out (td_mod a b)
   | FloorTD a b out => rz_eqb out (td_floordiv_td a b)
   | DivmodTD a b out => rzz_eqb out (td_divmod a b)
+  | Recompose a b out => rz_eqb out (do q <- td_floordiv_td a b; do p <- td_mul_int b q; do r <- td_mod a b; td_add p r)
   | MulInt a n _ out => rz_eqb out (td_mul_int a n)
   | FloorInt a n out => rz_eqb out (td_floordiv_int a n)
   | Un UNeg a out => rz_eqb out (td_neg a)
